@@ -116,6 +116,13 @@ structure WF (S : Sys) : Prop where
   vc_w : ∀ v, ∀ e ∈ (S.var v).cnsts, 0 ≤ e.2
   consist : ∀ c ∈ S.active, ∀ v, 0 < (S.var v).penalty → wOf v (S.cnst c).elems = wOf c (S.var v).cnsts
 
+/-- Further facts `System` guarantees when `solve()` is entered, needed where the solver walks `variable_set` or a
+variable's own element list (`FairBottleneck`, the water-filling reference): the variable of every enabled element is in
+`variable_set`, and every enabled element is also in its variable's `cnsts_` (same constraint, same weight). -/
+structure WFV (S : Sys) : Prop where
+  vo_all : ∀ c ∈ S.active, ∀ e ∈ (S.cnst c).elems, e.1 ∈ S.vorder
+  el_in_var : ∀ c ∈ S.active, ∀ e ∈ (S.cnst c).elems, (c, e.2) ∈ (S.var e.1).cnsts
+
 /-! ### ghost quantities -/
 
 def fixedLoad (S : Sys) (fixed : Nat → Bool) (value : Nat → Rat) (c : Nat) : Rat :=
